@@ -633,8 +633,8 @@ class Array(metaclass=MetaArray):
         if hasattr(self._itemtype, "_dtype"):
             arr = self._buffer.to_nplike(
                 self._offset + self._data_offset, self._itemtype._dtype, cshape
-            ).transpose(self._order)
-            assert arr.strides == self._strides
+            ).transpose(np.argsort(self._order))
+            assert arr.strides == tuple(self._strides)
             return arr
         else:
             raise NotImplementedError
@@ -645,8 +645,8 @@ class Array(metaclass=MetaArray):
         if hasattr(self._itemtype, "_dtype"):
             arr = self._buffer.to_nparray(
                 self._offset + self._data_offset, self._itemtype._dtype, cshape
-            ).transpose(self._order)
-            assert arr.strides == self._strides
+            ).transpose(np.argsort(self._order))
+            assert arr.strides == tuple(self._strides)
             return arr
         else:
             raise NotImplementedError
